@@ -6,6 +6,9 @@ import Rare.Proofs.C04Held
 import Rare.Proofs.C04Order
 import Rare.Proofs.C04Fuel
 import Rare.Proofs.C04Micro
+import Rare.Proofs.C04Gz
+import Rare.Model.C06File
+import Rare.Proofs.C06Inflate
 import Rare.Proofs.Batcher
 import Rare.Model.C04Sync
 import Rare.Gen.C04
@@ -699,5 +702,147 @@ theorem held_slices_intact_at_every_intermediate_state (n : Nat) (data : Bytes) 
 example : (Imm.scanAll 9 1 (Imm.init 2 ⟨[97, 10, 98, 98, 98, 10], []⟩)).1 = [(⟨0, 0, 1⟩, [97])] ∧
     ((Imm.scanAll 9 1 (Imm.init 2 ⟨[97, 10, 98, 98, 98, 10], []⟩)).2.2.scanAll 9 1).1 = [(⟨2, 0, 3⟩, [98, 98, 98])] := by
   decide
+
+/-! ## Round 4c: the seam with C06 - the scanner over the reader `openFileToReader` returns (plain file or gzip reader) -/
+
+/-- The scripts that describe a reader delivering the stream `(d, fails)` of C06's `streamOf` to a scanner with buffer
+    size `b`.  A stream that ends with `io.EOF`: any chunking with any stalls and no error before the data is out (the
+    scripted reader answers `(0, io.EOF)` once script and data are used up).  A stream that ends with a failure: the
+    first error reported is a failure (with or without bytes) and the reader had handed over all of `d` by then.  The
+    scanner is deterministic, so every adaptive reader with that contract (`os.File`, `gzip.Reader` with its
+    block-dependent chunking, a pipe) behaves on it like exactly one such script. -/
+def Realises (b : Nat) (script : List Step) (d : Bytes) (fails : Bool) : Prop :=
+  if fails then failsFirst script = true ∧ (Imm.run b d script).2.2.delivered = d
+  else ∀ st ∈ script, st.err = none
+
+/-- **C06 abstracts the scanner as `splitLines` of what the opened reader delivers (`runFile` / `runStream`); C04
+    discharges that assumption.**  For every file (plain, directory, gzip with any decoder outcome), with and without
+    `-z`, every buffer size and every script realising the reader's stream: the immediate scanner hands on exactly the
+    lines C06's `runFile` says, and calls `OnError` exactly as often as `runFile` counts read errors; with the batcher's
+    real buffer size the batches of `syncReaderToBatcher` carry exactly those lines. -/
+theorem scanner_over_opened_file (b : Nat) (h : 1 ≤ b) (gunzip : Bool) (name : C06.Path) (f : C06.FileOracle)
+    (rd : C06.Rd) (fb : Bool) (ho : C06.openFileToReader f gunzip = some (rd, fb)) (script : List Step)
+    (hr : Realises b script (C06.streamOf f rd).1 (C06.streamOf f rd).2) :
+    (Imm.run b (C06.streamOf f rd).1 script).1.map (·.2) = (C06.runFile gunzip name f).lines ∧
+    (Imm.run b (C06.streamOf f rd).1 script).2.2.errs = (C06.runFile gunzip name f).errs ∧
+    (b = Rare.Gen.readAheadBufferSize → ∀ batchSize,
+      ((syncRun batchSize (C06.streamOf f rd).1 script).batches.flatMap (·.lines)).map (·.2)
+        = (C06.runFile gunzip name f).lines) := by
+  have hl : (C06.runFile gunzip name f).lines = splitLines (C06.streamOf f rd).1 := by
+    simp only [C06.runFile, ho]
+    generalize C06.streamOf f rd = p
+    obtain ⟨d, e⟩ := p
+    rfl
+  have he : (C06.runFile gunzip name f).errs = if (C06.streamOf f rd).2 then 1 else 0 := by
+    simp only [C06.runFile, ho]
+    generalize C06.streamOf f rd = p
+    obtain ⟨d, e⟩ := p
+    rfl
+  rw [hl, he]
+  generalize C06.streamOf f rd = p at hr
+  obtain ⟨d, e⟩ := p
+  have key : (Imm.run b d script).1.map (·.2) = splitLines d ∧ (Imm.run b d script).2.2.errs = if e then 1 else 0 := by
+    cases e with
+    | false =>
+      have hs : ∀ st ∈ script, st.err = none := by simpa [Realises] using hr
+      refine ⟨imm_chunking_independent b d script h hs, ?_⟩
+      exact (imm_error_once b d script h).2 (fun st hst => by rw [hs st hst]; simp)
+    | true =>
+      obtain ⟨hf, hd⟩ : failsFirst script = true ∧ (Imm.run b d script).2.2.delivered = d := by
+        simpa [Realises] using hr
+      refine ⟨by rw [(imm_tokens_eq_split b d script h).1, hd], ?_⟩
+      have hg : Good (Imm.init b ⟨d, script⟩) [] := good_init _ _ h
+      have heof := scanAll_eof _ _ hg (imm_terminates b d script h)
+      have hP := scanAll_closed closed_firstFailure_seen (d.length + script.length + 3) (d.length + script.length + 3) hg
+        (Or.inl ⟨by simp [Imm.init], by simpa [Imm.init] using hf, by simp [Imm.init]⟩)
+      rcases hP with ⟨hne, _, _⟩ | ⟨h1, _⟩
+      · rw [hne] at heof; cases heof
+      · simpa [Imm.run] using h1
+  refine ⟨key.1, key.2, fun hb batchSize => ?_⟩
+  subst hb
+  have h1 := (sync_batches_partition_lines batchSize d script).2.1
+  have h2 := (imm_tokens_eq_split Rare.Gen.readAheadBufferSize d script h).1
+  have h3 : (syncRun batchSize d script).final = (Imm.run Rare.Gen.readAheadBufferSize d script).2.2 := rfl
+  simp only at h1 ⊢
+  rw [h1, h3, ← h2, key.1]
+
+/-- **`rare -z` over a gzip file, every member and block layout, every chunking.**  A file of any number of gzip
+    members (`cat a.gz b.gz`; any header `gzip.NewReader` accepts), each member any sequence of stored blocks: the file
+    is opened through the gzip reader (no fallback), the decoder model delivers the concatenated member contents without
+    error, and the scanner over it - every buffer size, every way the gzip reader chunks its `Read` results (block
+    boundaries, member boundaries, window flushes: any error-free script with any stalls) - hands on exactly the lines of
+    the uncompressed data with no `OnError` call: where lines end is independent of where members, blocks and chunks
+    end.  (Fixed / dynamic Huffman blocks: same statement through `scanner_over_opened_file` for whatever the decoder
+    model `Gz.gunzip` answers; the decoder model itself is compared with `compress/gzip` by C06's op `gunzip` and by
+    C04's op `gz`.) -/
+theorem scanner_over_gzip_members (b : Nat) (h : 1 ≤ b) (name : C06.Path) (m : C06.Gz.Hdr × List Bytes)
+    (ms : List (C06.Gz.Hdr × List Bytes)) (hms : C06.Gz.MembersOk (m :: ms)) (script : List Step)
+    (hs : ∀ st ∈ script, st.err = none) :
+    C06.openFileToReader (C06.FileOracle.ofBytes (C06.Gz.fileStored (m :: ms))) true = some (.gz, false) ∧
+    C06.streamOf (C06.FileOracle.ofBytes (C06.Gz.fileStored (m :: ms))) .gz = (C06.Gz.fileData (m :: ms), false) ∧
+    (Imm.run b (C06.Gz.fileData (m :: ms)) script).1.map (·.2) = splitLines (C06.Gz.fileData (m :: ms)) ∧
+    (Imm.run b (C06.Gz.fileData (m :: ms)) script).1.map (·.2)
+      = (C06.runFile true name (C06.FileOracle.ofBytes (C06.Gz.fileStored (m :: ms)))).lines ∧
+    (Imm.run b (C06.Gz.fileData (m :: ms)) script).2.2.errs = 0 ∧
+    (C06.runFile true name (C06.FileOracle.ofBytes (C06.Gz.fileStored (m :: ms)))).errs = 0 := by
+  have hg : C06.Gz.gunzip (C06.Gz.fileStored (m :: ms)) = some (C06.Gz.fileData (m :: ms), false) := by
+    have := C06.Gz.gunzip_fileStored m ms hms [] (fun r hh => by cases hh)
+    simpa using this
+  have hh : C06.Gz.headerOk (C06.Gz.fileStored (m :: ms)) = true := by
+    unfold C06.Gz.headerOk C06.Gz.readHeader
+    simp only [C06.Gz.fileStored, C06.Gz.memberStored, List.append_assoc]
+    rw [C06.Gz.readHeaderRest_encode m.1 (hms m (by simp)).1]
+  have ho : C06.openFileToReader (C06.FileOracle.ofBytes (C06.Gz.fileStored (m :: ms))) true = some (.gz, false) := by
+    simp [C06.openFileToReader, C06.openFileToReaderG, C06.FileOracle.ofBytes, C06.FileOracle.gzHeaderOk, hh]
+  have hst : C06.streamOf (C06.FileOracle.ofBytes (C06.Gz.fileStored (m :: ms))) .gz = (C06.Gz.fileData (m :: ms), false) := by
+    simp [C06.streamOf, C06.FileOracle.ofBytes, C06.gzAnswers, hg]
+  have hr : Realises b script (C06.streamOf (C06.FileOracle.ofBytes (C06.Gz.fileStored (m :: ms))) .gz).1
+      (C06.streamOf (C06.FileOracle.ofBytes (C06.Gz.fileStored (m :: ms))) .gz).2 := by
+    rw [hst]; simpa [Realises] using hs
+  have main := scanner_over_opened_file b h true name _ _ _ ho script hr
+  rw [hst] at main
+  refine ⟨ho, hst, imm_chunking_independent b _ script h hs, main.1, ?_, ?_⟩
+  · exact (imm_error_once b _ script h).2 (fun st hst => by rw [hs st hst]; simp)
+  · rw [← main.2.1]
+    exact (imm_error_once b _ script h).2 (fun st hst => by rw [hs st hst]; simp)
+
+/-- **A gzip file cut at any point after its header, under the scanner**: the decoder model delivers a prefix `d` of the
+    content and then fails (`io.ErrUnexpectedEOF`, with or without bytes in the same `Read`); for every buffer size and
+    every script realising that stream the scanner hands on exactly the lines of `d` - a cut inside a line gives that
+    partial line as the last one - and `OnError` fires exactly once, as `runFile` counts. -/
+theorem scanner_over_truncated_gzip (b : Nat) (h : 1 ≤ b) (name : C06.Path) (hd : C06.Gz.Hdr) (hw : hd.WF) (cs : List Bytes)
+    (hok : C06.Gz.ChunksOk cs) (k : Nat) (hk1 : hd.encode.length ≤ k) (hk2 : k < (C06.Gz.memberStored hd cs).length) :
+    ∃ d : Bytes, d <+: cs.flatten ∧
+      C06.streamOf (C06.FileOracle.ofBytes ((C06.Gz.memberStored hd cs).take k)) .gz = (d, true) ∧
+      ∀ script, Realises b script d true →
+        (Imm.run b d script).1.map (·.2) = splitLines d ∧
+        (Imm.run b d script).1.map (·.2)
+          = (C06.runFile true name (C06.FileOracle.ofBytes ((C06.Gz.memberStored hd cs).take k))).lines ∧
+        (Imm.run b d script).2.2.errs = 1 ∧
+        (C06.runFile true name (C06.FileOracle.ofBytes ((C06.Gz.memberStored hd cs).take k))).errs = 1 := by
+  obtain ⟨d, hg, hp⟩ := C06.Gz.gunzip_cut hd hw cs hok k hk1 hk2
+  have hh : C06.Gz.headerOk ((C06.Gz.memberStored hd cs).take k) = true := by
+    have e : (C06.Gz.memberStored hd cs).take k
+        = hd.encode ++ (C06.Gz.deflateStored cs ++ C06.Gz.trailer cs.flatten).take (k - hd.encode.length) := by
+      unfold C06.Gz.memberStored
+      rw [List.append_assoc, List.take_append, List.take_of_length_le hk1]
+    unfold C06.Gz.headerOk C06.Gz.readHeader
+    rw [e, C06.Gz.readHeaderRest_encode hd hw]
+  have ho : C06.openFileToReader (C06.FileOracle.ofBytes ((C06.Gz.memberStored hd cs).take k)) true = some (.gz, false) := by
+    simp [C06.openFileToReader, C06.openFileToReaderG, C06.FileOracle.ofBytes, C06.FileOracle.gzHeaderOk, hh]
+  have hst : C06.streamOf (C06.FileOracle.ofBytes ((C06.Gz.memberStored hd cs).take k)) .gz = (d, true) := by
+    simp [C06.streamOf, C06.FileOracle.ofBytes, C06.gzAnswers, hg]
+  refine ⟨d, hp, hst, fun script hr => ?_⟩
+  have main := scanner_over_opened_file b h true name _ _ _ ho script (by rw [hst]; exact hr)
+  rw [hst] at main
+  have hl : (C06.runFile true name (C06.FileOracle.ofBytes ((C06.Gz.memberStored hd cs).take k))).lines = splitLines d := by
+    simp only [C06.runFile, ho, hst]; rfl
+  have he : (C06.runFile true name (C06.FileOracle.ofBytes ((C06.Gz.memberStored hd cs).take k))).errs = 1 := by
+    simp only [C06.runFile, ho, hst]; rfl
+  exact ⟨by rw [main.1, hl], main.1, by rw [main.2.1, he], he⟩
+
+/-- Non-vacuity (`Realises`, failing stream): three bytes, then the failure together with the last one. -/
+example : Realises 2 [⟨2, none⟩, ⟨0, none⟩, ⟨1, some .fail⟩] [97, 10, 98] true := by
+  unfold Realises; decide
 
 end Rare.C04
